@@ -1174,13 +1174,18 @@ func dgPrepStream(c *Ctx, n int) {
 func dgLayoutFixedCases() []*dgCase {
 	w := getWorld()
 	var out []*dgCase
-	for v := 0; v < 4; v++ {
-		twice, commented := v >= 2, v%2 == 1
+	for v := 0; v < 7; v++ {
+		twice, commented := v == 2 || v == 3, v == 1 || v == 3
 		led := newDgLedger()
 		doc := etree.NewDocument()
 		root := doc.CreateElement("m:Root")
 		root.CreateAttr("xmlns:m", "urn:example:m")
 		root.CreateAttr("ID", "_layout1")
+		root.CreateAttr("Version", "2.0")
+		if v >= 5 { // a second attribute whose LOCAL name is ID
+			root.CreateAttr("x:ID", "_other2")
+			root.CreateAttr("xmlns:x", "urn:example:x")
+		}
 		root.CreateElement("m:Issuer").SetText("idp")
 		root.CreateElement("m:Item").SetText("hello")
 		root.CreateElement("m:Item").SetText("world")
@@ -1200,6 +1205,32 @@ func dgLayoutFixedCases() []*dgCase {
 			labels = append(labels, "two-enveloped-transforms,resigned")
 		}
 		expect := "ok"
+		// attribute order after signing (witnesses of C08_validation_ignores_attribute_order / ..._id_namesake_refuted):
+		// 4: unprefixed attributes moved (accepted); 5: ID before x:ID (accepted); 6: x:ID before ID: SelectAttr("ID") answers
+		// x:ID's value, no reference matches, "missing"
+		move := func(key string, to int) {
+			for i, a := range root.Attr {
+				if a.FullKey() == key {
+					at := root.Attr[i]
+					root.Attr = append(root.Attr[:i], root.Attr[i+1:]...)
+					rest := append([]etree.Attr{}, root.Attr[to:]...)
+					root.Attr = append(append(root.Attr[:to], at), rest...)
+					return
+				}
+			}
+		}
+		switch v {
+		case 4:
+			move("Version", 0)
+			move("ID", len(root.Attr)-1)
+			labels = append(labels, "unprefixed-attributes-moved")
+		case 5:
+			labels = append(labels, "id-before-prefixed-id")
+		case 6:
+			move("x:ID", 0)
+			labels = append(labels, "prefixed-id-before-id")
+			expect = "missing"
+		}
 		if commented {
 			labels = append(labels, "comments-after-signing")
 			cm := func() *etree.Comment { return etree.NewComment(" c ") }
